@@ -83,7 +83,7 @@ static void live_part(Case &c, Draw &d) {
 void h_run(Case &c) {
   Draw &d = c.head;
   if (d.chance(1, 8)) { live_part(c, d); return; }
-  SpecOpts so; so.gen_flags = false; so.gen_filters = false; so.syn.max_pus = 48; TopoSpec sp = gen_topospec(d, so);
+  SpecOpts so; so.gen_flags = false; so.gen_filters = false; so.syn.max_pus = 48; so.gx_num = 1; so.gx_den = 6; TopoSpec sp = gen_topospec(d, so);
   bool this_sys = d.chance(2, 3); if (this_sys) sp.flags |= HWLOC_TOPOLOGY_FLAG_IS_THISSYSTEM; if (d.chance(1, 3)) sp.flags |= HWLOC_TOPOLOGY_FLAG_INCLUDE_DISALLOWED; c.desc(sp.text());
   hwloc_topology_t t; hwloc_topology_init(&t); g_record = true; if (apply_spec_and_load(c, t, sp) < 0) { hwloc_topology_destroy(t); c.discard(); }
   if (d.chance(1, 2)) { hwloc_bitmap_t s = hwloc_bitmap_dup(hwloc_topology_get_topology_cpuset(t)); hwloc_bitmap_clr(s, hwloc_bitmap_last(s)); if (d.chance(1, 2)) hwloc_bitmap_clr(s, hwloc_bitmap_first(s)); if (!hwloc_bitmap_iszero(s) && hwloc_topology_restrict(t, s, 0) == 0) c.desc(" restricted(complete != topology set)"); hwloc_bitmap_free(s); }
